@@ -2,7 +2,7 @@
    at most one task is inside transport.send_all and at most one inside transport.recv_into, for every trace and
    every oracle. *)
 From Coq Require Import ZArith List Bool Lia ZifyBool.
-From EN Require Import Lib.Bytes Conc.TlsBase Conc.TlsPump Proofs.C08_proofs.
+From EN Require Import Lib.Bytes Conc.TlsBase Conc.TlsPump Gen.ParamsC08 Proofs.C08_proofs.
 
 Definition is_sending (p : pc) : bool := match p with PSending _ => true | _ => false end.
 Definition is_recving (p : pc) : bool := match p with PRecving => true | _ => false end.
@@ -49,7 +49,7 @@ Lemma step_locks : forall m b s p l s' p' a,
   b2n (recv_lock s') + b2n (is_recving p) = b2n (recv_lock s) + b2n (is_recving p').
 Proof.
   intros m b s p l s' p' a H Hs Hr.
-  destruct p as [ | k | k | | | r]; destruct l as [x | | t]; cbv beta iota delta [step] in H; try discriminate.
+  destruct p as [ | k | k | sn | | r]; destruct l as [x | | t]; cbv beta iota delta [step] in H; try discriminate.
   - destruct (negb _); [inversion H; subst; cbn; lia |].
     cbv zeta in H. destruct (a_out x).
     + destruct m; try (inversion H; subst; cbn; lia);
@@ -70,10 +70,12 @@ Proof.
       rewrite A, B. cbn. rewrite Hs. cbn. lia.
     + destruct k; inversion H; subst; cbn; rewrite Hs; cbn; lia.
     + inversion H; subst. cbn. rewrite Hs. cbn. lia.
-  - unfold go in H. destruct (recv_lock s) eqn:L; inversion H; subst. cbn. rewrite ?L. cbn. lia.
+  - go_recv H sn; inversion H; subst; cbn; rewrite ?L;
+      try (match goal with |- context [pcall m ?z] => destruct (pcall_not_locked m z) as [A B]; rewrite A, B end); cbn; lia.
   - destruct t; inversion H; subst; cbn; lia.
   - specialize (Hr eq_refl). destruct t as [d | | | | bt]; try discriminate; cbv zeta in H.
-    + destruct d; inversion H; subst; destruct (pcall_not_locked m (set_recv_lock s false)) as [A B];
+    + destruct d; inversion H; subst;
+        match goal with |- context [pcall m ?z] => destruct (pcall_not_locked m z) as [A B] end;
         rewrite A, B; cbn; rewrite Hr; cbn; lia.
     + inversion H; subst. cbn. rewrite Hr. cbn. lia.
     + inversion H; subst. cbn. rewrite Hr. cbn. lia.
@@ -127,10 +129,11 @@ Proof.
   inversion H; subst. split.
   - intros w Hin. apply in_map_iff in Hin. destruct Hin as [x [Hx Hin]]. inversion Hx; subst.
     destruct (step_send_is_wbio _ _ _ _ _ _ _ _ _ St Hin) as [_ [_ Hl]]. subst lb.
-    rewrite Is. destruct (t_pc tk); cbn in St; try discriminate.
+    rewrite Is. destruct (t_pc tk) as [ | k | k | sn | | r]; cbv beta iota delta [step] in St; try discriminate.
     + unfold go in St. destruct (send_lock (y_sh y)); [discriminate | reflexivity].
-    + unfold go in St. destruct (recv_lock (y_sh y)); inversion St; subst. cbn in Hin. intuition discriminate.
+    + go_recv St sn; inversion St; subst; cbn in Hin; intuition discriminate.
   - intros Hin. apply in_map_iff in Hin. destruct Hin as [x [Hx Hin]]. inversion Hx; subst.
-    destruct (recv_only_from_recvwait _ _ _ _ _ _ _ _ St Hin) as [Hp [Hl _]]. subst lb. rewrite Hp in St.
-    rewrite Ir. cbn in St. unfold go in St. destruct (recv_lock (y_sh y)); [discriminate | reflexivity].
+    destruct (recv_only_from_recvwait _ _ _ _ _ _ _ _ St Hin) as [[sn Hp] [Hl _]]. subst lb. rewrite Hp in St.
+    rewrite Ir. cbv beta iota delta [step] in St. unfold go in St.
+    destruct (recv_lock (y_sh y)); [discriminate | reflexivity].
 Qed.
